@@ -17,6 +17,8 @@ Decided clauses:
   R17.5 a protection change never touches the region: on every path of _sodium_mprotect the only memory access through the caller's
         pointer or the recomputed region start is the read of the size word in the header page (unprotected_ptr - 2 * page_size);
         the canary lies inside the region and may be inaccessible.
+  R17.6 detection terminates unconditionally: every path of _out_of_bounds() ends, without returning, in abort() itself and no
+        function it calls can reach an indirect call (the misuse handler is application code and may not return).
 NOT decided: that a protected page faults (OS), protection-transition histories.
 """
 from .. import build
@@ -295,6 +297,35 @@ def run(ctx, chk):
                 ok = ld[0].size == 8 and lin(ld[0].addr, m) == ({U[0].res: 1, PS: -2}, 0)
         chk.ob("R17.4", mp, "protection callback is applied to (unprotected_ptr, stored unprotected_size) and its status returned", ok,
                loc=mp.loc(p.end_iid), path=None if ok else p, key="R17.4 _sodium_mprotect region")
+    # ---- R17.6 detection terminates unconditionally -----------------------------------------------------------------------------
+    # _out_of_bounds() never returns, and after raising the signal it ends in abort() itself: nothing it calls on the way may run
+    # application code (a misuse handler that longjmps would keep a process alive whose guard was overwritten).
+    oob = prog.need("_out_of_bounds", unit=fr.unit, rule="R17.6")
+    cg = prog.callgraph()
+    n176 = 0
+    for p in cm.paths(prog, oob):
+        n176 += 1
+        calls = list(p.calls())
+        last = calls[-1] if calls else None
+        ok = p.kind != "ret" and last is not None and last.callee_name() == "abort"
+        indirect = []
+        for e in calls:
+            if e.callee[0] == "fn":
+                reach = cg.reachable([e.callee[1]])
+                for k in reach:
+                    g = cg.by_key[k]
+                    if any(i["op"] == "call" and i.get("callee") and i["callee"][0] == "v" for i in g.insts):
+                        indirect.append("%s (through %s)" % (e.callee[1].sname, g.sname))
+            elif e.callee[0] == "ind":
+                indirect.append("an indirect call")
+        ok = ok and not indirect
+        chk.ob("R17.6", oob, "_out_of_bounds() ends in abort() and runs no application-installable code", ok, loc=oob.loc(p.end_iid),
+               path=None if ok else p, detail="" if ok else ("the path %s" % ("returns" if p.kind == "ret" else "ends in %s" %
+                                                                             (last.callee_name() if last else "nothing")) +
+                                                              ("; it calls %s, which can run a handler installed by the application" %
+                                                               ", ".join(sorted(set(indirect))[:2]) if indirect else "")),
+               key="R17.6 _out_of_bounds")
+    chk.floor("R17.6", "paths of _out_of_bounds", n176, 1)
     # ---- R17.5 changing the protection never touches the region itself --------------------------------------------------------
     # The user region (with its canary) may be PROT_NONE when a protection call arrives; the only memory _sodium_mprotect may
     # read is the size word in the read-only header page two pages below. Any other access through the caller's pointer or
